@@ -48,13 +48,15 @@ def _own_nodes(f):
     return order
 
 
-def _scope_info(f):
+def _scope_info(f, free_params=frozenset()):
+    """free_params: parameters of f that may be renamed like locals (private function, never passed by keyword)"""
     own = _own_nodes(f)
     params = {a.arg for a in f.args.args + f.args.kwonlyargs + f.args.posonlyargs}
     if f.args.vararg:
         params.add(f.args.vararg.arg)
     if f.args.kwarg:
         params.add(f.args.kwarg.arg)
+    params = params - set(free_params)
     declared = set()
     stores, loads = set(), set()
     imported = set()
@@ -78,13 +80,14 @@ def _scope_info(f):
                     nested_names.add(x.id)
                 elif isinstance(x, ast.arg):
                     nested_names.add(x.arg)
-    locals_ = stores - params - declared - imported - nested_names - nested_defs
+    locals_ = (stores | set(free_params)) - params - declared - imported - nested_names - nested_defs
     others = (loads | params | declared | imported | nested_names | nested_defs) - locals_
     return own, locals_, others
 
 
-def _shape(node, locals_):
-    """string describing node with local names blanked; also returns the local Name nodes in traversal order"""
+def _shape(node, locals_, attrs=frozenset(), attr_hits=None):
+    """string describing node with local names (and the attribute names in `attrs`) blanked; also returns the local Name
+    nodes in traversal order (and appends the blanked Attribute nodes to attr_hits)"""
     names = []
 
     def rec(n):
@@ -99,6 +102,10 @@ def _shape(node, locals_):
             return f"N:{n.id}"
         if isinstance(n, ast.Constant):
             return f"C:{n.value!r}"
+        if isinstance(n, ast.Attribute) and n.attr in attrs:
+            if attr_hits is not None:
+                attr_hits.append(n)
+            return "(Attribute " + rec(n.value) + " @)"
         if isinstance(n, ast.AST):
             parts = [type(n).__name__]
             for fld, v in ast.iter_fields(n):
@@ -174,10 +181,10 @@ def _header_shape(st, locals_):
     return _shape(st, locals_)
 
 
-def correspondence(f_new, f_ref):
+def correspondence(f_new, f_ref, free_new=frozenset(), free_ref=frozenset()):
     """-> ({new local name: reference name}, how) with how in 'same-shape' / 'aligned' / None"""
-    _o1, loc_new, oth_new = _scope_info(f_new)
-    _o2, loc_ref, _oth_ref = _scope_info(f_ref)
+    _o1, loc_new, oth_new = _scope_info(f_new, free_new)
+    _o2, loc_ref, _oth_ref = _scope_info(f_ref, free_ref)
     if not loc_new or not loc_ref:
         return {}, None, loc_new, oth_new
     s_new, n_new = _shape(f_new.body, loc_new)
@@ -203,6 +210,14 @@ def correspondence(f_new, f_ref):
                 for a, b in zip(na, nb):
                     votes.setdefault(_name_of(a), {}).setdefault(_name_of(b), 0)
                     votes[_name_of(a)][_name_of(b)] += 1
+    # renamable parameters correspond by position
+    pa = [a.arg for a in f_new.args.posonlyargs + f_new.args.args]
+    pb = [a.arg for a in f_ref.args.posonlyargs + f_ref.args.args]
+    if len(pa) == len(pb):
+        for a, b in zip(pa, pb):
+            if a in free_new and b in free_ref:
+                votes.setdefault(a, {}).setdefault(b, 0)
+                votes[a][b] += 1000
     mapping = {}
     for a, d in votes.items():
         best = max(d.items(), key=lambda kv: (kv[1], kv[0] == a))
@@ -246,6 +261,10 @@ def apply(f, m):
     if not m:
         return 0
     n_ = 0
+    for a in f.args.posonlyargs + f.args.args + f.args.kwonlyargs + [x for x in (f.args.vararg, f.args.kwarg) if x is not None]:
+        if a.arg in m:
+            a.arg = m[a.arg]
+            n_ += 1
     for n in _own_nodes(f):
         if isinstance(n, ast.Name) and n.id in m:
             n.id = m[n.id]
@@ -291,12 +310,384 @@ def _index(tree):
     return out
 
 
-def normalise_module(tree, rel):
-    """rename the locals of the functions of `tree` to the reference spelling; -> report dict"""
+# ------------------------------------------------------------------------------------------------ package level
+_PLAN_CACHE = {}
+_TYPE_NAMES = {"list", "tuple", "set", "dict", "str", "int", "float", "bool", "bytes", "frozenset", "type", "object"}
+
+
+def _is_private(name):
+    return name.startswith("_") and not name.startswith("__")
+
+
+def _loose_sig(f):
+    """header shapes of f with every name and every private attribute blanked (for matching renamed private helpers)"""
+    def rec(n):
+        if isinstance(n, FUNC + (ast.ClassDef,)):
+            return "<def>"
+        if isinstance(n, ast.Lambda):
+            return "<lambda>"
+        if isinstance(n, ast.Name):
+            return "$"
+        if isinstance(n, ast.Attribute):
+            return "(A " + rec(n.value) + " " + ("@" if _is_private(n.attr) else n.attr) + ")"
+        if isinstance(n, ast.Constant):
+            return f"C:{n.value!r}"
+        if isinstance(n, ast.AST):
+            parts = [type(n).__name__]
+            for fld, v in ast.iter_fields(n):
+                if fld in ("ctx", "type_comment", "lineno", "col_offset", "end_lineno", "end_col_offset", "kind"):
+                    continue
+                if isinstance(n, ast.ExceptHandler) and fld == "name":
+                    parts.append("$")
+                    continue
+                if isinstance(n, ast.keyword) and fld == "arg":
+                    parts.append(str(v))
+                    continue
+                parts.append(rec(v))
+            return "(" + " ".join(parts) + ")"
+        if isinstance(n, list):
+            return "[" + " ".join(rec(x) for x in n) + "]"
+        return repr(n)
+    out = []
+    for st in _headers(f):
+        if isinstance(st, (ast.If, ast.While)):
+            out.append("H:" + type(st).__name__ + rec(st.test))
+        elif isinstance(st, (ast.For, ast.AsyncFor)):
+            out.append("H:For" + rec(st.target) + rec(st.iter))
+        elif isinstance(st, ast.With):
+            out.append("H:With" + "".join(rec(i.context_expr) for i in st.items))
+        elif isinstance(st, ast.Try):
+            out.append("H:Try")
+        elif isinstance(st, ast.ExceptHandler):
+            out.append("H:Except" + (rec(st.type) if st.type is not None else ""))
+        elif isinstance(st, ast.Expr) and isinstance(st.value, ast.Constant) and isinstance(st.value.value, str):
+            continue        # docstring
+        else:
+            out.append(rec(st))
+    return out
+
+
+def _identifiers(tree):
+    out = set()
+    for n in ast.walk(tree):
+        if isinstance(n, ast.Name):
+            out.add(n.id)
+        elif isinstance(n, ast.Attribute):
+            out.add(n.attr)
+        elif isinstance(n, FUNC + (ast.ClassDef,)):
+            out.add(n.name)
+        elif isinstance(n, ast.arg):
+            out.add(n.arg)
+        elif isinstance(n, ast.keyword) and n.arg:
+            out.add(n.arg)
+        elif isinstance(n, ast.alias):
+            out.add((n.asname or n.name).split(".")[0])
+    return out
+
+
+def _literal(v):
+    if isinstance(v, ast.Constant):
+        return True
+    if isinstance(v, ast.UnaryOp) and isinstance(v.op, (ast.USub, ast.UAdd)) and isinstance(v.operand, ast.Constant):
+        return True
+    if isinstance(v, (ast.Tuple, ast.List, ast.Set)):
+        return all(_literal(x) or (isinstance(x, ast.Name) and x.id in _TYPE_NAMES) for x in v.elts)
+    if isinstance(v, ast.Call) and isinstance(v.func, ast.Name) and v.func.id == "frozenset" and len(v.args) == 1 and not v.keywords:
+        return _literal(v.args[0])
+    return False
+
+
+def _module_globals(tree):
+    """name -> [value nodes] for plain module-level assignments"""
+    out = {}
+    for st in tree.body:
+        if isinstance(st, ast.Assign) and len(st.targets) == 1 and isinstance(st.targets[0], ast.Name):
+            out.setdefault(st.targets[0].id, []).append(st.value)
+        elif isinstance(st, ast.Assign) and len(st.targets) == 1 and isinstance(st.targets[0], (ast.Tuple, ast.List)) and isinstance(st.value, (ast.Tuple, ast.List)) \
+                and len(st.targets[0].elts) == len(st.value.elts) and all(isinstance(x, ast.Name) for x in st.targets[0].elts):
+            for t, v in zip(st.targets[0].elts, st.value.elts):
+                out.setdefault(t.id, []).append(v)
+        elif isinstance(st, ast.Assign):
+            for t in st.targets:
+                for x in ast.walk(t):
+                    if isinstance(x, ast.Name):
+                        out.setdefault(x.id, []).append(None)
+        elif isinstance(st, ast.AnnAssign) and isinstance(st.target, ast.Name):
+            out.setdefault(st.target.id, []).append(st.value)
+    return out
+
+
+def package_plan(root):
+    """Correspondence of *private* names between the analysed package and the reference, computed once per root:
+         defs[rel]     {new qualname: reference qualname}      renamed private functions / methods
+         attrs         {new attribute name: reference name}    renamed private attributes (package wide)
+         crename[rel]  {new global: reference global}          renamed private module constants
+         cinline[rel]  {global: value node}                    private literal constants the reference does not have
+         kwnames       {callee name: {keyword names used in calls}}"""
+    if root in _PLAN_CACHE:
+        return _PLAN_CACHE[root]
+    plan = {"defs": {}, "attrs": {}, "crename": {}, "cinline": {}, "clsinline": {}, "kwnames": {}, "new": {}, "notes": []}
+    _PLAN_CACHE[root] = plan
+    rels = []
+    for d in ("ak", "bin"):
+        pth = os.path.join(root, d)
+        if os.path.isdir(pth):
+            for fn in sorted(os.listdir(pth)):
+                if fn.endswith(".py"):
+                    rels.append(f"{d}/{fn}")
+    new, ref = {}, {}
+    for rel in rels:
+        try:
+            new[rel] = ast.parse(open(os.path.join(root, rel), encoding="utf-8").read())
+        except (SyntaxError, OSError):
+            continue
+        r = reference_module(rel)
+        if r is not None:
+            ref[rel] = r
+    plan["new"] = new
+    for t in new.values():
+        for c in ast.walk(t):
+            if isinstance(c, ast.Call):
+                nm = c.func.id if isinstance(c.func, ast.Name) else c.func.attr if isinstance(c.func, ast.Attribute) else None
+                if nm:
+                    plan["kwnames"].setdefault(nm, set()).update(k.arg for k in c.keywords if k.arg)
+    new_attrs = {n.attr for t in new.values() for n in ast.walk(t) if isinstance(n, ast.Attribute)} | \
+                {n.name for t in new.values() for n in ast.walk(t) if isinstance(n, FUNC)}
+    ref_attrs = {n.attr for t in ref.values() for n in ast.walk(t) if isinstance(n, ast.Attribute)} | \
+                {n.name for t in ref.values() for n in ast.walk(t) if isinstance(n, FUNC)}
+    # ---- A. renamed private functions / methods
+    for rel in new:
+        if rel not in ref:
+            continue
+        nd, rd = _index(new[rel]), _index(ref[rel])
+        ids_new = _identifiers(new[rel])
+        un_new = [q for q, n in nd.items() if isinstance(n, FUNC) and q not in rd and _is_private(q.split(".")[-1])]
+        un_ref = [q for q, n in rd.items() if isinstance(n, FUNC) and q not in nd and _is_private(q.split(".")[-1])]
+        pairs = []
+        for qa in un_new:
+            for qb in un_ref:
+                if qa.rsplit(".", 1)[0] if "." in qa else "" != (qb.rsplit(".", 1)[0] if "." in qb else ""):
+                    pass
+                ca = qa.rsplit(".", 1)[0] if "." in qa else ""
+                cb = qb.rsplit(".", 1)[0] if "." in qb else ""
+                if ca != cb:
+                    continue
+                sa_, sb_ = _loose_sig(nd[qa]), _loose_sig(rd[qb])
+                if not sa_ or not sb_:
+                    continue
+                r = difflib.SequenceMatcher(a=sa_, b=sb_, autojunk=False).ratio()
+                if len(nd[qa].args.args) == len(rd[qb].args.args):
+                    r += 0.05
+                pairs.append((r, qa, qb))
+        pairs.sort(reverse=True)
+        used_a, used_b = set(), set()
+        for r, qa, qb in pairs:
+            if r < 0.6 or qa in used_a or qb in used_b:
+                continue
+            if qb.split(".")[-1] in ids_new:
+                continue        # the reference name is used for something else here
+            used_a.add(qa)
+            used_b.add(qb)
+            plan["defs"].setdefault(rel, {})[qa] = qb
+            plan["notes"].append(f"{rel}: {qa} is the reference's {qb} (similarity {r:.2f})")
+    # ---- C. renamed private attributes (package wide), by votes over aligned statements of corresponding functions
+    cand_new = {a for a in new_attrs if _is_private(a) and a not in ref_attrs}
+    cand_ref = {a for a in ref_attrs if _is_private(a) and a not in new_attrs}
+    votes = {}
+    for rel, m in plan["defs"].items():
+        for qa, qb in m.items():
+            a, b = qa.split(".")[-1], qb.split(".")[-1]
+            if a in cand_new and b in cand_ref:
+                votes.setdefault(a, {}).setdefault(b, 0)
+                votes[a][b] += 1000
+    if cand_new and cand_ref:
+        for rel in new:
+            if rel not in ref:
+                continue
+            nd, rd = _index(new[rel]), _index(ref[rel])
+            dm = plan["defs"].get(rel, {})
+            for qa, fa in nd.items():
+                qb = dm.get(qa, qa)
+                # a method of a renamed ... classes keep their names
+                if not isinstance(fa, FUNC) or qb not in rd or not isinstance(rd[qb], FUNC):
+                    continue
+                fb = rd[qb]
+                if not any(isinstance(x, ast.Attribute) and x.attr in cand_new for x in ast.walk(fa)):
+                    continue
+                _o, la, _x = _scope_info(fa, {p.arg for p in fa.args.args})
+                _o, lb, _x = _scope_info(fb, {p.arg for p in fb.args.args})
+                ha, hb = _headers(fa), _headers(fb)
+
+                def hs(st, loc, attrs):
+                    hits = []
+                    if isinstance(st, (ast.If, ast.While)):
+                        sh = "H:" + type(st).__name__ + _shape(st.test, loc, attrs, hits)[0]
+                    elif isinstance(st, (ast.For, ast.AsyncFor)):
+                        sh = "H:For" + _shape(st.target, loc, attrs, hits)[0] + _shape(st.iter, loc, attrs, hits)[0]
+                    elif isinstance(st, ast.With):
+                        sh = "H:With" + "".join(_shape(i.context_expr, loc, attrs, hits)[0] for i in st.items)
+                    elif isinstance(st, ast.Try):
+                        sh = "H:Try"
+                    elif isinstance(st, ast.ExceptHandler):
+                        sh = "H:Except"
+                    else:
+                        sh = _shape(st, loc, attrs, hits)[0]
+                    return sh, hits
+                sa_ = [hs(st, la, cand_new) for st in ha]
+                sb_ = [hs(st, lb, cand_ref) for st in hb]
+                sm = difflib.SequenceMatcher(a=[x[0] for x in sa_], b=[x[0] for x in sb_], autojunk=False)
+                for blk in sm.get_matching_blocks():
+                    for k in range(blk.size):
+                        xa, xb = sa_[blk.a + k][1], sb_[blk.b + k][1]
+                        if len(xa) != len(xb):
+                            continue
+                        for u, v in zip(xa, xb):
+                            votes.setdefault(u.attr, {}).setdefault(v.attr, 0)
+                            votes[u.attr][v.attr] += 1
+    taken = set()
+    for a, d in sorted(votes.items(), key=lambda kv: -max(kv[1].values())):
+        best = max(d.items(), key=lambda kv: kv[1])
+        if sum(1 for v in d.values() if v == best[1]) > 1 or best[0] in taken or best[0] in new_attrs:
+            continue
+        plan["attrs"][a] = best[0]
+        taken.add(best[0])
+        plan["notes"].append(f"attribute {a} is the reference's {best[0]} ({best[1]} aligned uses)")
+    # ---- B. private module constants
+    for rel in new:
+        g_new = _module_globals(new[rel])
+        g_ref = _module_globals(ref[rel]) if rel in ref else {}
+        ids_new = _identifiers(new[rel])
+        stored_elsewhere = {x.id for f in ast.walk(new[rel]) if isinstance(f, FUNC) for x in ast.walk(f)
+                            if isinstance(x, ast.Name) and isinstance(x.ctx, (ast.Store, ast.Del))} | \
+                           {nm for f in ast.walk(new[rel]) if isinstance(f, ast.Global) for nm in f.names}
+        free_ref = {k: v for k, v in g_ref.items() if _is_private(k) and k not in ids_new and len(v) == 1 and v[0] is not None}
+        for k, vals in g_new.items():
+            if not _is_private(k) or k in g_ref or len(vals) != 1 or vals[0] is None or k in stored_elsewhere:
+                continue
+            v = vals[0]
+            same = [kr for kr, vr in free_ref.items() if ast.dump(vr[0]) == ast.dump(v)]
+            if len(same) == 1:
+                plan["crename"].setdefault(rel, {})[k] = same[0]
+                del free_ref[same[0]]
+                plan["notes"].append(f"{rel}: constant {k} is the reference's {same[0]}")
+            elif _literal(v):
+                plan["cinline"].setdefault(rel, {})[k] = v
+                plan["notes"].append(f"{rel}: private constant {k} = {ast.unparse(v)[:40]} (not in the reference) is read as its value")
+        # class-level private literal constants that the reference class does not have
+        nd = _index(new[rel])
+        rd = _index(ref[rel]) if rel in ref else {}
+        attr_stores = {x.attr for t in new.values() for x in ast.walk(t) if isinstance(x, ast.Attribute) and isinstance(x.ctx, (ast.Store, ast.Del))}
+        for q, c in nd.items():
+            if not isinstance(c, ast.ClassDef):
+                continue
+            ref_names = set()
+            if q in rd and isinstance(rd[q], ast.ClassDef):
+                ref_names = {t.id for st in rd[q].body if isinstance(st, ast.Assign) for t in st.targets if isinstance(t, ast.Name)}
+            for st in c.body:
+                if isinstance(st, ast.Assign) and len(st.targets) == 1 and isinstance(st.targets[0], ast.Name):
+                    k = st.targets[0].id
+                    if _is_private(k) and k not in ref_names and k not in ref_attrs and k not in attr_stores and _literal(st.value) \
+                            and sum(1 for s2 in c.body if isinstance(s2, ast.Assign) and any(isinstance(t, ast.Name) and t.id == k for t in s2.targets)) == 1:
+                        plan["clsinline"].setdefault(rel, {})[k] = (c.name, st.value)
+                        plan["notes"].append(f"{rel}: class constant {c.name}.{k} = {ast.unparse(st.value)[:40]} (not in the reference) is read as its value")
+    return plan
+
+
+def _apply_plan(tree, rel, plan):
+    n_ = 0
+    dm = plan["defs"].get(rel, {})
+    nd = _index(tree)
+    fn_ren = {}
+    for qa, qb in dm.items():
+        if qa in nd:
+            a, b = qa.split(".")[-1], qb.split(".")[-1]
+            nd[qa].name = b
+            if "." not in qa:
+                fn_ren[a] = b          # module-level function: also referenced as a plain name
+            else:
+                plan["attrs"].setdefault(a, b)
+            n_ += 1
+    am = plan["attrs"]
+    cr = plan["crename"].get(rel, {})
+    ci = plan["cinline"].get(rel, {})
+    cli = plan["clsinline"].get(rel, {})
+
+    class T(ast.NodeTransformer):
+        def visit_Name(self, n):
+            nonlocal n_
+            if n.id in fn_ren:
+                n.id = fn_ren[n.id]
+                n_ += 1
+            elif n.id in cr:
+                n.id = cr[n.id]
+                n_ += 1
+            elif n.id in ci and isinstance(n.ctx, ast.Load):
+                n_ += 1
+                return ast.copy_location(_copy(ci[n.id]), n)
+            return n
+
+        def visit_Attribute(self, n):
+            nonlocal n_
+            self.generic_visit(n)
+            if n.attr in cli and isinstance(n.ctx, ast.Load) and isinstance(n.value, ast.Name) and n.value.id in ("self", "cls", cli[n.attr][0]):
+                n_ += 1
+                return ast.copy_location(_copy(cli[n.attr][1]), n)
+            if n.attr in am:
+                n.attr = am[n.attr]
+                n_ += 1
+            return n
+
+        def visit_FunctionDef(self, n):
+            nonlocal n_
+            if n.name in am and getattr(n, "_alpha_method", False):
+                n.name = am[n.name]
+                n_ += 1
+            self.generic_visit(n)
+            return n
+        visit_AsyncFunctionDef = visit_FunctionDef
+    # methods whose name is a renamed private attribute
+    for c in ast.walk(tree):
+        if isinstance(c, ast.ClassDef):
+            for m in c.body:
+                if isinstance(m, FUNC):
+                    m._alpha_method = True
+            # __slots__ entries
+            for st in c.body:
+                if isinstance(st, ast.Assign) and any(isinstance(t, ast.Name) and t.id == "__slots__" for t in st.targets):
+                    for x in ast.walk(st.value):
+                        if isinstance(x, ast.Constant) and isinstance(x.value, str) and x.value in am:
+                            x.value = am[x.value]
+                            n_ += 1
+    T().visit(tree)
+    # the definitions of inlined constants stay (harmless); renamed constants' definitions were renamed by visit_Name
+    ast.fix_missing_locations(tree)
+    return n_
+
+
+def _copy(n):
+    if isinstance(n, ast.AST):
+        new = n.__class__()
+        for f in n._fields:
+            if hasattr(n, f):
+                setattr(new, f, _copy(getattr(n, f)))
+        return new
+    if isinstance(n, list):
+        return [_copy(x) for x in n]
+    return n
+
+
+def normalise_module(tree, rel, root=None):
+    """rename the locals of the functions of `tree` (and, with `root`, the private names of the package) to the reference
+    spelling; -> report dict"""
     ref = reference_module(rel)
-    rep = {"functions": 0, "renamed_functions": 0, "names": 0, "same_shape": 0, "aligned": 0, "details": {}}
+    rep = {"functions": 0, "renamed_functions": 0, "names": 0, "same_shape": 0, "aligned": 0, "private_names": 0, "details": {}, "notes": []}
     if ref is None or os.environ.get("VERIF_NO_ALPHA") == "1":
         return rep
+    plan = None
+    if root is not None:
+        plan = package_plan(root)
+        rep["private_names"] = _apply_plan(tree, rel, plan)
+        rep["notes"] = [x for x in plan["notes"] if x.startswith(rel) or x.startswith("attribute")]
     new_defs, ref_defs = _index(tree), _index(ref)
     # inner functions first, so that an outer function's view of "names used in nested scopes" is final
     for q in sorted(new_defs, key=lambda k: -k.count(".")):
@@ -304,7 +695,16 @@ def normalise_module(tree, rel):
         if not isinstance(f, FUNC) or q not in ref_defs or not isinstance(ref_defs[q], FUNC):
             continue
         rep["functions"] += 1
-        mapping, how, locals_, others = correspondence(f, ref_defs[q])
+        fr = ref_defs[q]
+        free_new = free_ref = frozenset()
+        if plan is not None and (_is_private(f.name) or "." in q and not isinstance(new_defs.get(q.rsplit(".", 1)[0]), ast.ClassDef)):
+            # a private function (or a nested one): its parameters are renamable unless some call passes them by keyword
+            kws = plan["kwnames"].get(f.name, set())
+            ps = [a.arg for a in f.args.posonlyargs + f.args.args]
+            skip0 = ps[:1] if ps and ps[0] in ("self", "cls") else []
+            free_new = frozenset(p_ for p_ in ps if p_ not in skip0 and p_ not in kws)
+            free_ref = frozenset(a.arg for a in fr.args.posonlyargs + fr.args.args if a.arg not in ("self", "cls"))
+        mapping, how, locals_, others = correspondence(f, fr, free_new, free_ref)
         m = _valid(mapping, locals_, others)
         if m:
             apply(f, m)
